@@ -1,22 +1,24 @@
 #!/bin/sh
 # usage: tools/matrix.sh [seed dirs...]  -- runs every quick check against each seeded change in a scratch worktree of /repo
-# (never touches /repo itself); prints one line per (seed, check) with rc; writes /verif/seeded/matrix.txt
-cd /verif
+# (never touches /repo itself) from a snapshot of /verif (so editing /verif meanwhile is harmless); writes seeded/matrix.txt
+SNAP=/tmp/verif_matrix_snap
 WT=/tmp/verif_matrix_wt
-OUTD=/tmp/verif_matrix_out
-seeds=${*:-$(ls -d seeded/S*)}
+rm -rf $SNAP; mkdir -p $SNAP
+rsync -a --exclude .git --exclude replays --exclude evidence /verif/ $SNAP/
+cd $SNAP
+seeds=${*:-$(cd /verif && ls -d seeded/S*)}
 props=$(python3 -c "import json;print(' '.join(c['property_id'] for c in json.load(open('MANIFEST.json'))['checks']))")
-git -C /repo worktree remove --force $WT 2>/dev/null
+git -C /repo worktree remove --force $WT 2>/dev/null; git -C /repo worktree prune
 git -C /repo worktree add -q --detach $WT HEAD
 for sd in $seeds; do
   name=$(basename $sd)
-  git -C $WT checkout -q -- . ; git -C $WT apply /verif/$sd/patch.diff || { echo "$name: patch does not apply"; continue; }
+  git -C $WT checkout -q -- . ; git -C $WT apply /verif/seeded/$name/patch.diff || { echo "$name: patch does not apply"; continue; }
   line="$name:"
   for p in $props; do
-    VERIF_REPO=$WT VERIF_OUT=$OUTD ./check $p --tier quick > $OUTD.log 2>&1; rc=$?
+    VERIF_REPO=$WT VERIF_OUT=$SNAP/out timeout 900 ./check $p --tier quick > $SNAP/last.log 2>&1; rc=$?
     [ $rc -ne 0 ] && line="$line $p=$rc"
   done
   echo "$line"
-done | tee seeded/matrix.txt
+done | tee /verif/seeded/matrix.txt
 git -C /repo worktree remove --force $WT
-rm -rf $OUTD $OUTD.log
+rm -rf $SNAP
